@@ -243,6 +243,24 @@ theorem row_good (m : Mgr) (s : Stanza) : (rowOf m).good s = true := by
   case transferJobOpenFail => exact transfer_good _ _ _ s
   case transferJobOpenShort => exact transfer_good _ _ _ s
   case transferJobFailed => exact transfer_good _ _ _ s
+  case app =>
+    simp only [rowOf, Row.good, Row.run, appBeh, Beh.goodFor]
+    generalize returnedFor s = r
+    generalize s.type = t
+    generalize s.dec = e
+    generalize s.frm = f
+    rcases r with _ | r
+    · cases t <;> cases e <;> rfl
+    · cases r <;> cases t <;> cases e <;> rfl
+  case appOld =>
+    simp only [rowOf, Row.good, Row.run, appBeh, Beh.goodFor]
+    generalize returnedFor s = r
+    generalize s.type = t
+    generalize s.dec = e
+    generalize s.frm = f
+    rcases r with _ | r
+    · cases t <;> cases e <;> rfl
+    · cases r <;> cases t <;> cases e <;> rfl
   case uploadRequest =>
     simp only [rowOf, Row.good, Row.run, uploadRequestBeh, Beh.goodFor]
     generalize headIs s .slot .upload = a
